@@ -1064,7 +1064,7 @@ func newMethod(obj Value, f *funcT) Value {
 	if f.Variadic {
 		vArgs = -vArgs
 	}
-	return newFunc(vArgs, f.Rets, func(v *VM) {
+	m := newFunc(vArgs, f.Rets, func(v *VM) {
 		args := make([]Value, xArgs)
 		copy(args, v.stack[len(v.stack)-xArgs:])
 		v.stack = v.stack[:len(v.stack)-xArgs]
@@ -1072,6 +1072,8 @@ func newMethod(obj Value, f *funcT) Value {
 		v.stack = append(v.stack, args...)
 		f.Value(v)
 	})
+	m.getFunc().VariadicType = f.VariadicType
+	return m
 }
 
 func (s *structT) SetIndex(k int, v Value) {
